@@ -145,7 +145,7 @@ def _report_simple(items: List[Dict], kind: str, base: int, limit: int = 6) -> T
             doc = {"kind": "record", "property": PROP, "violation": {k: it.get(k) for k in ("key", "id", "verdict", "how", "where", "oracle")},
                    "entry_point": it["entry_point"], "machine": "machine" in it["key"],
                    "data": (it.get("corrupted_entry") or {}).get("data") if isinstance(it.get("corrupted_entry"), dict) else None,
-                   "file_text": json.dumps([it.get("corrupted_entry")], indent=2) if "corrupted_entry" in it else it.get("file_text", "")}
+                   "file_text": it["file_text"] if "file_text" in it else json.dumps([it.get("corrupted_entry")], indent=2)}
             if it["entry_point"] == "read_contracts_from_file" and "corrupted_entry" not in it and "file_text" not in it:
                 continue
         else:
